@@ -26,6 +26,7 @@ def run(rep, prog, tier):
     rep.rule('C14.4', 'copy completeness', floor=9)
     rep.rule('C14.5', 'attachment inserts; embedded signatures extracted', floor=5)
     rep.assume('SorteDeque.insort keeps elements with equal keys (bisect insertion, no replacement)')
+    rep.assume('SubPackets: `name in sp` holds exactly when sp[name] is a non-empty list (lookup by subpacket name in both areas)')
 
     export(rep, prog)
     exportable(rep, prog)
@@ -142,8 +143,12 @@ def exportable(rep, prog):
     seen = {True: 0, False: 0}
     for s in Interp(prog, Scenario(inline=noinline)).run(f):
         r = render(s.ret) if s.ret is not None else 'raises %s' % s.raised
+        # presence is `name in subpackets` or, the same thing, the truth of the list `subpackets[name]` (SubPackets.__getitem__ returns
+        # the subpackets of that name, empty when there is none)
         present = atom_value(s.facts, present_atom)
-        other = sorted(atoms(path_cond(s.facts)) - {present_atom})
+        if present is None:
+            present = atom_value(s.facts, L)
+        other = sorted(atoms(path_cond(s.facts)) - {present_atom, L})
         for case in ((True, False) if present is None else (present,)):
             seen[case] += 1
             if case:
@@ -167,14 +172,27 @@ def exportable(rep, prog):
         m = re.match(r'^%s\.(\w+)$' % re.escape(p.getter.params[0]), r)
         backing = m.group(1) if m else None
         rep.check(m is not None and m.group(1) != 'bflag', 'C14.2', 'Boolean.bflag', r, 'the flag is read from the backing attribute', where=p.getter.where)
-    me, val = sb.params[0], sb.params[1]
-    decoded = ('bool(%s.bytes_to_int(%s))' % (me, val), '(%s.bytes_to_int(%s) != 0)' % (me, val))
-    for s in Interp(prog, Scenario(inline=noinline, forward_stores=False)).run(sb):
-        st = {pth: v for pth, v, l, _ in s.stores}
-        ok = st.get('%s.bflag' % me) in decoded or (backing is not None and st.get('%s.%s' % (me, backing)) in decoded)
-        rep.check(ok, 'C14.2', 'Boolean.bflag_bytearray', 'stores %s' % st,
-                  'the parsed flag octet must reach the attribute the flag is read from; otherwise an explicit exportable=true reads back as false, '
-                  'the certification fails verification and is dropped on the next export', where=sb.where, expected='self.bflag = bool(...)', found=st)
+    # the parsed flag: evaluated by the checker's finite-point evaluator (sa/ceval) as a boolean function of the octets - a fresh
+    # subpacket (flag False, as __init__ leaves it) is given the octets through the bytes overload and the flag is read back
+    from sa import ceval
+    E = ceval.Evaluator(prog)
+    got = []
+    for octets in (b'\x00', b'\x01', b'\x80', b'\xff', b'\x00\x01', b'\x01\x00', b'\x00\x00'):
+        try:
+            o = ceval.Obj(B)
+            E.set(o, 'bflag', False)
+            E.set(o, 'bflag', ceval.VBuf(octets))
+            v = E.get(o, 'bflag')
+            got.append((octets, v if isinstance(v, bool) else repr(v)))
+        except ceval.Raised as ex:
+            got.append((octets, 'raises %s' % ex.name))
+        except (ceval.NoEval, ceval.Diverged) as ex:
+            raise AnalysisError('Boolean.bflag (bytes): outside the checker\'s evaluator: %s' % ex)
+    wrong = [(o_, v) for o_, v in got if v is not any(o_)]
+    rep.check(not wrong, 'C14.2', 'Boolean.bflag_bytearray', 'octets -> flag %s' % got,
+              'the parsed flag octet must reach the attribute the flag is read from; otherwise an explicit exportable=true reads back as false, '
+              'the certification fails verification and is dropped on the next export', where=sb.where, expected='flag = some octet is non-zero',
+              found=wrong)
     bs = p.setters['bool']
     for s in Interp(prog, Scenario(inline=noinline)).run(bs):
         st = {pth: v for pth, v, l, _ in s.stores}
@@ -460,7 +478,14 @@ def _copy_loops(recs, me, root, mappings=()):
         mc = re.match(r'^(?:itertools\.)?chain\((.*)\)$', r.coll)
         colls = _split_args(mc.group(1)) if mc else [r.coll]
         for coll in colls:
-            _copy_loop(out, r, coll, me, root, len(colls) > 1, mappings)
+            # a family of the chain may itself be a (filtered) generator over a collection: its elements are that collection's,
+            # its filter applies to this family only (in terms of the loop's own bound variable)
+            extra = []
+            mg = re.match(r'^EACH\((\$[\d.]+) in (.*);\1\)$', coll)
+            if mg is not None and not r.var.startswith('('):
+                coll, conds = split_filter(mg.group(2))
+                extra = [re.sub(re.escape(mg.group(1)) + r'(?![\d_])(?!\.\d)', r.var, c) for c in conds]
+            _copy_loop(out, r, coll, me, root, len(colls) > 1, mappings, extra)
     return out
 
 
@@ -481,7 +506,7 @@ def _split_args(text):
     return out
 
 
-def _copy_loop(out, r, coll, me, root, chained, mappings):
+def _copy_loop(out, r, coll, me, root, chained, mappings, extra=()):
     m = re.match(r'^%s\.(\w+)(\.items\(\)|\.values\(\))?$' % re.escape(me), coll)
     if m is None:
         return
@@ -496,8 +521,8 @@ def _copy_loop(out, r, coll, me, root, chained, mappings):
     others = [p for p in r.paths if p not in copying]
     clean = all(len(_attach_events(p[2])) == 1 and p[0] in ('normal', 'continue') for p in copying) and \
         all(not _effects(p[2]) and p[0] in ('normal', 'continue') for p in others)
-    left_out = ('or', [('not', conj(r.conds)), any_of(path_cond(p[1]) for p in others)])
-    desc = '%s%s' % (r.conds or '', [[x[0] if x[1] else 'not ' + x[0] for x in p[1]] for p in others] or '')
+    left_out = ('or', [('not', conj(list(r.conds) + list(extra))), any_of(path_cond(p[1]) for p in others)])
+    desc = '%s%s' % ((list(r.conds) + list(extra)) or '', [[x[0] if x[1] else 'not ' + x[0] for x in p[1]] for p in others] or '')
     if copying:
         out[m.group(1)] = (clean, left_out, desc, elem)
 
